@@ -17,6 +17,7 @@ Failing(e) ==
   \cup (IF e.out # "ok" THEN {"outcome"} ELSE {})
   \cup (IF e.out = "ok" /\ e.w # e.r THEN {"structure"} ELSE {})
   \cup (IF e.out = "ok" /\ \E i \in 1..Len(e.probes) : e.probes[i][1] # e.probes[i][2] THEN {"behaviour"} ELSE {})
+  \cup (IF e.out = "ok" /\ ~e.rebuilt THEN {"rebuild-identity"} ELSE {})   \* C06 after unpickling: equal leaf = same object
   \cup (IF e.out = "ok" /\ e.len # Width(e.r) THEN {"width"} ELSE {})
   \cup (IF e.out = "ok" /\ e.depth # Depth(e.r) THEN {"depth"} ELSE {})
   \cup (IF e.out = "ok" /\ ~(FreeVars(e.r) \subseteq {e.vars[i] : i \in 1..Len(e.vars)}) THEN {"variables"} ELSE {})
